@@ -21,9 +21,9 @@ func scenarios(tier string) []fx.Scenario {
 	}
 	var out []fx.Scenario
 	for _, p := range fx.Trees(m, leaves) {
-		for _, fl := range []string{"empty", "tx"} {
+		for _, fl := range []string{"empty", "tx", "ctr"} {
 			out = append(out, fx.Scenario{Parents: p, Flavour: fl})
-			if fl == "empty" {
+			if fl != "tx" {
 				continue
 			}
 			for bad := 1; bad <= len(p); bad++ {
